@@ -11,19 +11,18 @@
   `encnormal.parse … enc=1 bytesonly=1`, HC4 and BT4); the driver also runs `parseRun` on the model's parse on every
   request.
 
-  FULL STATEMENT (the goal; `normal_parse_valid`):
-      for every input, `lc/lp/pb`, `1 ≤ dict_size ≤ 2^32`, `1 ≤ nice_len`, `depth_limit`, and every sound finder
-      (HC4 is proved sound), the parse of the modelled normal encoder satisfies `parseRun` and denotes exactly the input.
+  (N1) `normal_parse_valid`:  for EVERY input, every `lc/lp/pb`, `1 ≤ dict_size ≤ 2^32`, `2 ≤ nice_len ≤ 273`, every
+       `depth_limit`, and for every state the probability models, price tables, refresh counters and the left-over
+       contents of `opts[]` can be in, the parse of the modelled normal encoder over HC4 satisfies `parseRun` (every
+       symbol admissible, every copy inside dictionary and history) and denotes exactly the input.  No hypothesis is
+       left open.  (`LZMAOptions` allows `nice_len` 8..273; outside 2..273 the Rust itself indexes out of range or emits
+       unencodable lengths.  `274 ≤ OPTS`, `1152 · OPTS < INFINITY_PRICE` are checked for the constants regenerated from
+       the source.)  `normal_parse_valid_generic`: the same for every sound match finder whose reported lengths strictly
+       increase (the optimal parser relies on that, unlike the fast mode; proved for HC4).
+  (N2) `normal_roundtrip` / `_reader` / `_marker` / `_generated`: composed with `C01.lzma_roundtrip_size/_marker`:
+       finder + optimal parser + range encoder + decoder return the input and consume exactly the encoder's bytes.
 
-  PROVED HERE (`normal_parse_valid_partial` and the round trips built on it): the full statement for
-  `2 ≤ nice_len ≤ 273` (what `LZMAOptions` allows is 8..273; outside `2..273` the Rust itself indexes out of range or
-  emits unencodable lengths), under ONE remaining hypothesis, `ConvertSpec P` (Proofs/EncNormalOpt.lean):
-      `convert_opts` followed by the pending path of `get_next_symbol` hands out exactly the groups of the back-pointer
-      chain of `opts[opt_cur]` (composite entries expand to 2 / 3 symbols) and keeps the array size, for every `opts[]`
-      whose entries `1 ..= opt_cur` have the shape written by `set1` / `set2` / `set3`.
-  It is a statement about the in-place pointer reversal of an array only — no data, match finder, price or
-  probability occurs in it.  Everything else is proved for all inputs, all probability / price-table / counter
-  states and all contents `opts[]` may have been left with by earlier calls:
+  How it is proved (Proofs/EncNormal*.lean):
    * the outer loop with its read-ahead bookkeeping and the composition of the chains of all steps (`loopSpec_valid`,
      `chain_run`);
    * every EARLY EXIT of `get_next_symbol` (`nextCore_ok`): fewer than `MATCH_LEN_MIN` bytes left; best repeated match
@@ -32,35 +31,35 @@
      final — their candidate is a valid chain from an earlier final entry and `state/reps` are the coder state after it
      (`optStateAndReps_eq`: `update_opt_state_and_reps` = `Coder.apply` along the candidate); entries in
      `(cur, opt_end]` are at `INFINITY_PRICE` or hold a valid candidate from some `j ≤ cur`; `opts[cur + 1]` is never read
-     at `INFINITY_PRICE` because `price(i) ≤ 1152 · i` (`litPrice_le`: every entry of `PRICES` is ≤ 128; `NormalParams.ok`
-     has `1152 · OPTS < INFINITY_PRICE`);
+     at `INFINITY_PRICE` because `price(i) ≤ 1152 · i` (`litPrice_le`: every entry of `PRICES` is ≤ 128);
    * every INSERTION SITE keeps it: first part – long reps of all lengths (`firstRepPrices_thr`), normal matches
      (`firstMatchLoop_thr`); `calc1_byte_prices` – literal, short rep (only after the byte comparison), literal + rep0
      (`calc1BytePrices_inv`); `calc_long_rep_prices` – reps of all lengths after `get_match_len_fast_reject`,
      rep + literal + rep0 (`calcLongRepPrices_thr`); `calc_normal_match_prices` – the shortened match list, matches of all
-     lengths, match + literal + rep0 (`calcNormalMatchPrices_thr`).  The parser needs the finder's lengths to be strictly
-     increasing (`lensIncreasing`, proved for HC4), unlike the fast mode.
-  The driver runs `parseRun` on the model's parse on every request, so the conclusion is also observed per run.
+     lengths, match + literal + rep0 (`calcNormalMatchPrices_thr`);
+   * `convert_opts` + the pending path (`convertLoop_spec`, `convertSpec_holds`): the in-place pointer reversal hands out
+     exactly the groups of the back-pointer chain of `opts[opt_cur]`, the scratch entries of the composite candidates
+     included.
+  The driver also runs `parseRun` on the model's parse on every request.
 -/
-import LzmaVerif.Proofs.EncNormalOpt
+import LzmaVerif.Proofs.EncNormalConv
 import LzmaVerif.Proofs.EncFastHc4
 import LzmaVerif.Props.C01Fast
 
 namespace LzmaVerif.Props.C01Normal
 open LzmaVerif Mf Lzma EncFast EncNormal
 
-/-! ## (N1, partial) the parse of the normal encoder is valid and denotes the data -/
+/-! ## (N1) the parse of the normal encoder is valid and denotes the data -/
 
-/-- for every sound match finder whose reported lengths increase, under `ConvertSpec` -/
-theorem normal_parse_valid_generic_partial {σ : Type} {F : Finder σ} {d : Array UInt8} {dict : Nat}
+/-- for every sound match finder whose reported lengths increase -/
+theorem normal_parse_valid_generic {σ : Type} {F : Finder σ} {d : Array UInt8} {dict : Nat}
     (FS : FinderSound F d dict 273) (hFinc : ∀ s, FS.R s → lensIncreasing (F.find d s).1 = true)
     (P : NormalParams) (hP : P.ok) (hopts : 274 ≤ P.opts) (pr : Params) (dictOpt nice dictBuf : Nat)
-    (hn2 : 2 ≤ nice) (hn273 : nice ≤ 273) (hd1 : 1 ≤ dict) (hdb : min dict d.size ≤ dictBuf) (h32 : dict ≤ 2 ^ 32)
-    (hconv : ConvertSpec P) :
+    (hn2 : 2 ≤ nice) (hn273 : nice ≤ 273) (hd1 : 1 ≤ dict) (hdb : min dict d.size ≤ dictBuf) (h32 : dict ≤ 2 ^ 32):
     ∃ c' h', parseRun dictBuf (normalParse F P pr dictOpt nice d) Coder.init (#[] : Hist) = some (c', h') ∧
       h' = d.map (fun b => b.toNat) :=
   normalParse_valid_of_steps FS hFinc P pr dictOpt nice dictBuf hd1 hdb h32
-    (nextCore_ok FS P hP pr nice (by omega) (optimiserOk FS hFinc P hP hopts pr nice hn2 hn273 hconv))
+    (nextCore_ok FS P hP pr nice (by omega) (optimiserOk FS hFinc P hP hopts pr nice hn2 hn273 (convertSpec_holds P)))
 
 theorem normalParseHc4_eq (H : Hc4.Hc4Params) (P : NormalParams) (hP : P.ok) (pr : Params) (dict nice depth : Nat)
     (d : Array UInt8) :
@@ -75,30 +74,27 @@ theorem hc4_find_inc (H : Hc4.Hc4Params) (hH : H.ok) (dict nice depth : Nat) (hd
       lensIncreasing ((hc4Finder H { dict := dict, niceLen := nice, mlmax := 273, depthLimit := depth }).find d s).1 = true :=
   fun s h => (Hc4.hc4_find_sound H hH _ d hd1 (by show 3 ≤ 273; omega) s h).2.1
 
-/-- **(N1, partial)** the normal encoder over HC4.
-    Full statement: the same without `hconv` (and for every `nice_len` the options allow: 8..273 is inside 2..273).
-    Missing: `ConvertSpec P`, see the header. -/
-theorem normal_parse_valid_partial (H : Hc4.Hc4Params) (hH : H.ok) (P : NormalParams) (hP : P.ok) (hopts : 274 ≤ P.opts) (pr : Params)
+/-- **(N1)** the normal encoder over HC4 -/
+theorem normal_parse_valid (H : Hc4.Hc4Params) (hH : H.ok) (P : NormalParams) (hP : P.ok) (hopts : 274 ≤ P.opts) (pr : Params)
     (dict nice depth dictBuf : Nat) (d : Array UInt8)
-    (hn2 : 2 ≤ nice) (hn273 : nice ≤ 273) (hd1 : 1 ≤ dict) (hdb : min dict d.size ≤ dictBuf) (h32 : dict ≤ 2 ^ 32)
-    (hconv : ConvertSpec P) :
+    (hn2 : 2 ≤ nice) (hn273 : nice ≤ 273) (hd1 : 1 ≤ dict) (hdb : min dict d.size ≤ dictBuf) (h32 : dict ≤ 2 ^ 32):
     ∃ c' h', parseRun dictBuf (normalParseHc4 H P pr dict nice depth d) Coder.init (#[] : Hist) = some (c', h') ∧
       h' = d.map (fun b => b.toNat) := by
   rw [normalParseHc4_eq H P hP]
-  exact normal_parse_valid_generic_partial (hc4Sound H hH dict nice depth hd1 d) (hc4_find_inc H hH dict nice depth hd1 d)
-    P hP hopts pr dict nice dictBuf hn2 hn273 hd1 hdb h32 hconv
+  exact normal_parse_valid_generic (hc4Sound H hH dict nice depth hd1 d) (hc4_find_inc H hH dict nice depth hd1 d)
+    P hP hopts pr dict nice dictBuf hn2 hn273 hd1 hdb h32
 
-/-! ## (N2, partial) round trip of finder + optimal parser + range coder + decoder -/
+/-! ## (N2) round trip of finder + optimal parser + range coder + decoder -/
 
-/-- **(N2, partial)**, declared size: the model encoder's bytes for the normal parse decode to exactly the data -/
-theorem normal_roundtrip_partial (pr : Params) (H : Hc4.Hc4Params) (hH : H.ok) (P : NormalParams) (hP : P.ok) (hopts : 274 ≤ P.opts)
+/-- **(N2)**, declared size: the model encoder's bytes for the normal parse decode to exactly the data -/
+theorem normal_roundtrip (pr : Params) (H : Hc4.Hc4Params) (hH : H.ok) (P : NormalParams) (hP : P.ok) (hopts : 274 ≤ P.opts)
     (dict nice depth dictBuf : Nat) (d : Array UInt8)
     (hn2 : 2 ≤ nice) (hn273 : nice ≤ 273) (hd1 : 1 ≤ dict) (hdb : min dict d.size ≤ dictBuf) (h32 : dict ≤ 2 ^ 32)
-    (hconv : ConvertSpec P) (rest : List Nat) (cap : Nat) :
+    (rest : List Nat) (cap : Nat) :
     ∃ bytes, encodeParse pr dictBuf #[] (some d.size) (d.size + 1) (normalParseHc4 H P pr dict nice depth d) = some bytes ∧
       decodeRaw pr dictBuf #[] (some d.size) (bytes ++ rest) cap
         = .ok (d.map (fun b => b.toNat)) bytes.length (normalParseHc4 H P pr dict nice depth d) := by
-  obtain ⟨c', h', hp, hh⟩ := normal_parse_valid_partial H hH P hP hopts pr dict nice depth dictBuf d hn2 hn273 hd1 hdb h32 hconv
+  obtain ⟨c', h', hp, hh⟩ := normal_parse_valid H hH P hP hopts pr dict nice depth dictBuf d hn2 hn273 hd1 hdb h32
   have hpu := C01Fast.presetUsedOf_empty dictBuf
   have hsz : h'.size = d.size := by rw [hh, Array.size_map]
   obtain ⟨bytes, he, hdec⟩ := C01.lzma_roundtrip_size pr dictBuf #[] (normalParseHc4 H P pr dict nice depth d) d.size
@@ -110,27 +106,27 @@ theorem normal_roundtrip_partial (pr : Params) (H : Hc4.Hc4Params) (hH : H.ok) (
     simp only [List.size_toArray, List.length_nil, Array.extract_size]
   rw [this, hh]
 
-/-- **(N2, partial)** with the dictionary buffer size `LZMAReader` really uses for a raw stream of declared size -/
-theorem normal_roundtrip_reader_partial (pr : Params) (H : Hc4.Hc4Params) (hH : H.ok) (P : NormalParams) (hP : P.ok) (hopts : 274 ≤ P.opts)
+/-- **(N2)** with the dictionary buffer size `LZMAReader` really uses for a raw stream of declared size -/
+theorem normal_roundtrip_reader (pr : Params) (H : Hc4.Hc4Params) (hH : H.ok) (P : NormalParams) (hP : P.ok) (hopts : 274 ≤ P.opts)
     (dict nice depth : Nat) (d : Array UInt8) (hn2 : 2 ≤ nice) (hn273 : nice ≤ 273) (hd1 : 1 ≤ dict) (h32 : dict ≤ 2 ^ 32)
-    (hconv : ConvertSpec P) (rest : List Nat) (cap : Nat) :
+    (rest : List Nat) (cap : Nat) :
     ∃ bytes, encodeParse pr (lzmaReaderDictBuf dict (some d.size) 0) #[] (some d.size) (d.size + 1)
         (normalParseHc4 H P pr dict nice depth d) = some bytes ∧
       decodeRaw pr (lzmaReaderDictBuf dict (some d.size) 0) #[] (some d.size) (bytes ++ rest) cap
         = .ok (d.map (fun b => b.toNat)) bytes.length (normalParseHc4 H P pr dict nice depth d) :=
-  normal_roundtrip_partial pr H hH P hP hopts dict nice depth _ d hn2 hn273 hd1 (C01Fast.readerDictBuf_ge dict d.size) h32 hconv rest cap
+  normal_roundtrip pr H hH P hP hopts dict nice depth _ d hn2 hn273 hd1 (C01Fast.readerDictBuf_ge dict d.size) h32 rest cap
 
-/-- **(N2, partial)**, end marker (`use_end_marker = true`; `cap` is the model's output bound) -/
-theorem normal_roundtrip_marker_partial (pr : Params) (H : Hc4.Hc4Params) (hH : H.ok) (P : NormalParams) (hP : P.ok) (hopts : 274 ≤ P.opts)
+/-- **(N2)**, end marker (`use_end_marker = true`; `cap` is the model's output bound) -/
+theorem normal_roundtrip_marker (pr : Params) (H : Hc4.Hc4Params) (hH : H.ok) (P : NormalParams) (hP : P.ok) (hopts : 274 ≤ P.opts)
     (dict nice depth dictBuf : Nat) (d : Array UInt8)
     (hn2 : 2 ≤ nice) (hn273 : nice ≤ 273) (hd1 : 1 ≤ dict) (hdb : min dict d.size ≤ dictBuf) (h32 : dict ≤ 2 ^ 32) (hbuf : dictBuf ≤ END_DIST)
-    (hconv : ConvertSpec P)
+   
     (rest : List Nat) (cap : Nat) (hcap : (normalParseHc4 H P pr dict nice depth d).length < cap) :
     ∃ bytes, encodeParse pr dictBuf #[] none (cap + 1)
         (normalParseHc4 H P pr dict nice depth d ++ [.mtch END_DIST 2]) = some bytes ∧
       decodeRaw pr dictBuf #[] none (bytes ++ rest) cap
         = .ok (d.map (fun b => b.toNat)) bytes.length (normalParseHc4 H P pr dict nice depth d ++ [.mtch END_DIST 2]) := by
-  obtain ⟨c', h', hp, hh⟩ := normal_parse_valid_partial H hH P hP hopts pr dict nice depth dictBuf d hn2 hn273 hd1 hdb h32 hconv
+  obtain ⟨c', h', hp, hh⟩ := normal_parse_valid H hH P hP hopts pr dict nice depth dictBuf d hn2 hn273 hd1 hdb h32
   have hpu := C01Fast.presetUsedOf_empty dictBuf
   obtain ⟨bytes, he, hdec⟩ := C01.lzma_roundtrip_marker pr dictBuf hbuf #[] (normalParseHc4 H P pr dict nice depth d) 2
     (by omega) c' h' (by rw [hpu]; exact hp) rest cap hcap
@@ -157,11 +153,30 @@ theorem generated_opts_ge : 274 ≤ EncNormal.genParams.opts := by decide
     literal never more than `9 · 128 = 1152` -/
 theorem generated_prices_le : Consts.PRICES.all (fun x => decide (x ≤ 128)) = true := by decide +kernel
 
+/-- the round trip for the HC4 and normal-mode parameters regenerated from /repo's source, every input, every `lc/lp/pb`,
+    every `dict_size` in `1 ..= 2^32`, every `nice_len` in `2 ..= 273`, every `depth_limit` -/
+theorem normal_roundtrip_generated (pr : Params) (dict nice depth : Nat) (d : Array UInt8)
+    (hn2 : 2 ≤ nice) (hn273 : nice ≤ 273) (hd1 : 1 ≤ dict) (h32 : dict ≤ 2 ^ 32) (rest : List Nat) (cap : Nat) :
+    ∃ bytes, encodeParse pr (lzmaReaderDictBuf dict (some d.size) 0) #[] (some d.size) (d.size + 1)
+        (normalParseHc4 MfGen.hc4Params EncNormal.genParams pr dict nice depth d) = some bytes ∧
+      decodeRaw pr (lzmaReaderDictBuf dict (some d.size) 0) #[] (some d.size) (bytes ++ rest) cap
+        = .ok (d.map (fun b => b.toNat)) bytes.length (normalParseHc4 MfGen.hc4Params EncNormal.genParams pr dict nice depth d) :=
+  normal_roundtrip_reader pr MfGen.hc4Params C01Mf.generated_hc4_params_ok EncNormal.genParams generated_normal_params_ok
+    generated_opts_ge dict nice depth d hn2 hn273 hd1 h32 rest cap
+
 /-! ## examples -/
 
 /-- "abcabcabcabcXabcabcabc_abX" (as in `C01Fast`) -/
 def w1 : Array UInt8 :=
   #[97, 98, 99, 97, 98, 99, 97, 98, 99, 97, 98, 99, 88, 97, 98, 99, 97, 98, 99, 97, 98, 99, 95, 97, 98, 88]
+
+
+/-- the hypotheses are satisfiable: the theorems instantiated at the real constants on `w1`
+    (dictionary 4096, nice_len 32, default depth, lc/lp/pb = 3/0/2) -/
+example := normal_parse_valid {} (by decide) {} (by decide) (by decide) ⟨3, 0, 2⟩ 4096 32 0 4096 w1 (by decide) (by decide)
+  (by decide) (by decide) (by decide)
+example := normal_roundtrip_generated ⟨3, 0, 2⟩ 4096 32 0 w1 (by decide) (by decide) (by decide) (by decide) [1, 2, 3] 100
+
 
 /-- the conclusion is not vacuous and the optimiser path is exercised: a whole run of the model (dictionary 16,
     nice_len 8, lc/lp/pb = 0/0/0, the small hash tables of `Hc4.tinyHash`, `opts[]` of 64 entries so that the kernel can
